@@ -3,7 +3,6 @@ package main
 import (
 	"fmt"
 	"go/token"
-	"sort"
 	"strings"
 
 	"golang.org/x/tools/go/ssa"
@@ -153,47 +152,46 @@ func c07R1(e *Engine) {
 		}
 	}
 	e.check(same, "R1", "actions:one-parse-handler", e.pos(nu.Pos()), "the four action keywords share one clause parser (%s)", pre["SET"])
-	// continuation list in the clause parser: an array literal of exactly the four tokens
-	var lists [][]string
-	for _, fn := range e.funcs("lang") {
-		instrs(fn, func(in ssa.Instruction) {
-			al, ok := in.(*ssa.Alloc)
-			if !ok {
+	// clause continuation: which token types the clause parser (and the helpers it is factored into) compares the
+	// look-ahead token with. Every action keyword must be among them (it starts the next clause) and nothing but
+	// punctuation besides – however the test is written (list literal, switch, chain of comparisons).
+	peeked := map[string]bool{}
+	if cp := e.fn("lang", "Parser."+pre["SET"]); cp != nil {
+		e.walkLocal("lang", cp, 3, func(in ssa.Instruction, ctx []callCtx) {
+			b, ok := in.(*ssa.BinOp)
+			if !ok || (b.Op != token.EQL && b.Op != token.NEQ) {
 				return
 			}
-			var els []string
-			for _, r := range refsOf(al) {
-				if ia, ok := r.(*ssa.IndexAddr); ok {
-					for _, st := range storesTo(ia) {
-						if s, isK := constString(st.Val); isK {
-							els = append(els, s)
-						}
-					}
-				}
+			x, y := b.X, b.Y
+			if fieldPathOf(y, ctx) == "peekToken.Type" {
+				x, y = y, x
 			}
-			hit := 0
-			for _, s := range els {
-				for _, a := range updateActions {
-					if s == a {
-						hit++
-					}
-				}
+			if fieldPathOf(x, ctx) != "peekToken.Type" {
+				return
 			}
-			if hit >= 2 {
-				sort.Strings(els)
-				lists = append(lists, els)
+			for _, t := range e.constStringsOf(y, ctx, 0) {
+				peeked[t] = true
 			}
 		})
 	}
-	want := append([]string{}, updateActions...)
-	sort.Strings(want)
-	okList := len(lists) > 0
-	for _, l := range lists {
-		if strings.Join(l, ",") != strings.Join(want, ",") {
-			okList = false
+	var missing, foreign []string
+	for _, a := range updateActions {
+		if !peeked[a] {
+			missing = append(missing, a)
 		}
 	}
-	e.check(okList, "R1", "actions:continuation-list", e.pos(nu.Pos()), "clause continuation accepts exactly %v (found %v)", want, lists)
+	for _, t := range sortedKeys(peeked) {
+		isAction := false
+		for _, a := range updateActions {
+			if a == t {
+				isAction = true
+			}
+		}
+		if !isAction && t != "EOF" && strings.ToUpper(t) != strings.ToLower(t) { // a word, not punctuation or end of input
+			foreign = append(foreign, t)
+		}
+	}
+	e.check(len(missing) == 0 && len(foreign) == 0, "R1", "actions:continuation-list", e.pos(nu.Pos()), "the clause parser continues with a further clause exactly on the action keywords %v (look-ahead compared with %v; missing %v, foreign %v)", updateActions, sortedKeys(peeked), missing, foreign)
 	// arithmetic operators of the update grammar
 	inf := e.registrations(nu, "registerInfix")
 	_, plus := inf["+"]
